@@ -29,10 +29,12 @@ PROPS = {
         not_decided=["in-range statements come out as in whole-file formatting (relates two runs)", "stmt_block::format_stmt_block touches only nested blocks (assumed, class C)"],
         assumptions=[]),
     "C03": dict(units=["tok", "args"], bounded=[dict(kind="lib", witnesses="C03_BOUNDED")],
-        explanation="token/trivia layer: format_token keeps a comment's kind, long-bracket level and text (line comments right-trimmed, block comments newline-normalised) and "
-                    "creates only whitespace; format_token_reference / format_symbol / format_eof re-emit the comments of the token they format or replace "
-                    "(stated over the comment subsequence cms()); pop_until_no_whitespace removes whitespace only.",
-        not_decided=["load_token_trivia's loop and format_end_token's reverse pass: assumed contracts (listed as stubs)",
+        explanation="token/trivia layer, all real text: format_token keeps a comment's kind, long-bracket level and text (line comments right-trimmed, block comments newline-normalised) and "
+                    "creates only whitespace; load_token_trivia (real loop over a Peekable with an inner next(), inductive invariant): the comments of the input trivia come out in order, each only "
+                    "rewritten as format_token allows, input whitespace is never copied, and in leading trivia every line comment is followed by a newline; format_token_reference / format_symbol / "
+                    "format_eof / format_end_token (reverse pass proved with a reverse lemma) re-emit exactly those comments (stated over the comment subsequence cms()); pop_until_no_whitespace removes whitespace only. "
+                    "format_function_args keeps parentheses that carry comments.",
+        not_decided=[
                      "comment transplant sites built from iterator-adapter chains (parenthesis removal, semicolon removal, hang_binop, punctuated lists, table fields): holes; "
                      "a comment dropped inside such a chain is not visible to this unit",
                      "code never ends up inside a comment: only the `line comment is followed by a newline` necessary condition (C01.line_comment_terminated)"],
